@@ -85,6 +85,27 @@ edit('pattern/pattern.go', lambda s: s.replace("""		needsEscaping := false
 		if !strings.ContainsAny(pat, `*?[\\.+()|]{}^$`) {
 			return pat, nil
 		}"""))
+# fifth batch: refactors around the round-4 rules
+edit('syntax/lexer.go', lambda s: s.replace('if p.quote != hdocWord && len(p.heredocs) > p.buriedHdocs {','if len(p.heredocs) > p.buriedHdocs && p.quote != hdocWord {'))
+edit('syntax/parser.go', lambda s: s.replace('\t\ts.Comments, b.X.Comments = b.X.Comments, nil\n\t\t// in "! x | y"','\t\ts.Comments = b.X.Comments\n\t\tb.X.Comments = nil\n\t\t// in "! x | y"'))
+edit('syntax/parser.go', lambda s: s.replace('func (p *Parser) posErr(pos Pos, format string, args ...any) {','func (p *Parser) posErr(at Pos, format string, args ...any) {').replace('\tif pos.IsRecovered() {','\tif at.IsRecovered() {').replace('\t\tpos = p.pos\n\t}\n\tp.errPass(ParseError{\n\t\tFilename:   p.f.Name,\n\t\tPos:        pos,','\t\tat = p.pos\n\t}\n\tp.errPass(ParseError{\n\t\tFilename:   p.f.Name,\n\t\tPos:        at,'))
+edit('syntax/parser.go', lambda s: s.replace("""		p.openNodes++
+		p.doHeredocs()
+		p.openNodes--
+	}
+	return p.f, p.err
+""","""		p.trailingHeredocs()
+	}
+	return p.f, p.err
+""").replace("func (p *Parser) doHeredocs() {","""func (p *Parser) trailingHeredocs() {
+	p.openNodes++
+	p.doHeredocs()
+	p.openNodes--
+}
+
+func (p *Parser) doHeredocs() {"""))
+edit('syntax/parser.go', lambda s: s.replace('\tp.postNested(old)\n\tif _, ok := p.gotRsrv("]]"); !ok {','\tp.postNested(old)\n\ts.Cmd = tc\n\tif _, ok := p.gotRsrv("]]"); !ok {'))
+edit('syntax/printer.go', lambda s: renameIn(s,'func (p *Printer) nestedStmts(','closing','end'))
 PY
 GOFLAGS=-mod=mod GOPROXY=off go build ./...
 cd /verif
